@@ -566,3 +566,105 @@ Proof.
 Qed.
 
 End Subset.
+
+(* ======================================================================== *)
+(* F. all subsets: the two ghosts coincide                                    *)
+(* ======================================================================== *)
+Lemma firstn_S_nth {A} (d : A) : forall l i, (i < length l)%nat -> firstn (S i) l = firstn i l ++ [nth i l d].
+Proof.
+  induction l as [|x r IH]; intros i Hi; cbn [length] in Hi; [lia|].
+  destruct i as [|i]; [reflexivity|]. cbn [firstn nth app]. f_equal. apply IH. lia.
+Qed.
+
+Lemma nth_repeat_nil {A} n i : nth i (repeat (@nil A) n) [] = [].
+Proof. revert i. induction n as [|n IH]; intros [|i]; cbn; auto. Qed.
+
+Definition gc0 (vals : list (list value)) : gcstate := mkGC (mkE [] vals 0 0) (repeat [] (length vals)).
+
+Lemma subsets_agree T vals sc :
+  walk_list (io_handlers gcs_prims) io_add_link T (mkWs regs0 (mkIo [] [] (gc0 vals))) = Ok sc ->
+  length (gch (io_c (w_c sc))) = length vals ->
+  forall k i gu acc outs' gfin,
+    (i + k = length vals)%nat -> e_vals (ge gu) = vals ->
+    gh gu = firstn i (gch (io_c (w_c sc))) ++ repeat [] k ->
+    run_subsets g_prims T g_switch i k gu acc = Ok (outs', gfin) ->
+    outs' = acc ++ repeat (mkSubsetOut (io_dd (w_c sc)) (io_links (w_c sc))) k /\
+    gh gfin = gch (io_c (w_c sc)).
+Proof.
+  intros Ec HlenG. set (G := gch (io_c (w_c sc))) in *.
+  induction k as [|k IH]; intros i gu acc outs' gfin Hik Hv Hg E; cbn [run_subsets] in E.
+  - injection E as <- <-. cbn [repeat]. rewrite app_nil_r. split; [reflexivity|].
+    rewrite Hg. cbn [repeat]. rewrite app_nil_r. apply firstn_all2. lia.
+  - unfold run_template in E.
+    destruct (walk_list (io_handlers g_prims) io_add_link T _) as [s1|] eqn:E1; cbn [bind] in E; [|discriminate].
+    assert (HR0 : Rst (Rio (Rt vals i (firstn i G) (repeat [] k)))
+                      (mkWs regs0 (mkIo [] [] (gc0 vals)))
+                      (mkWs regs0 (mkIo [] [] (g_switch i gu)))).
+    { split; cbn [w_r w_c]; [reflexivity|]. split; [reflexivity|]. split; [reflexivity|].
+      cbn [io_c]. unfold Rt, gc0, g_switch, enc_switch. cbn [gce gch ge gh e_vals e_idx e_cur].
+      repeat split; try assumption; try reflexivity.
+      - rewrite firstn_length. lia.
+      - rewrite Hg, nth_repeat_nil. reflexivity.
+      - apply repeat_length.
+      - lia. }
+    pose proof (walk_compressed_vs_subset vals i (firstn i G) (repeat [] k) T _ _ _ _ HR0 Ec E1)
+      as (Hr & Hdd & Hl & (Hvc & Hvu & _ & _ & _ & Hgh & _ & _)).
+    fold G in Hgh.
+    destruct (IH (S i) (io_c (w_c s1)) (acc ++ [mkSubsetOut (io_dd (w_c s1)) (io_links (w_c s1))]) outs' gfin)
+      as (Ho & Hf); [lia|exact Hvu| |exact E|].
+    + rewrite Hgh, (firstn_S_nth [] G i) by lia. rewrite <- app_assoc. reflexivity.
+    + split; [|exact Hf]. rewrite Ho, <- Hdd, <- Hl, <- app_assoc. reflexivity.
+Qed.
+
+Lemma strict_walk_length T vals sc :
+  walk_list (io_handlers gcs_prims) io_add_link T (mkWs regs0 (mkIo [] [] (gc0 vals))) = Ok sc ->
+  length (gch (io_c (w_c sc))) = length vals.
+Proof.
+  intros E.
+  assert (HR : Rst (Rio (@eq gcstate)) (mkWs regs0 (mkIo [] [] (gc0 vals))) (mkWs regs0 (mkIo [] [] (gc0 vals))))
+    by (split; cbn; [reflexivity|repeat split]).
+  destruct (gcs_walk_gc T _ _ _ HR E) as (s2 & E2 & (_ & _ & _ & Hc)).
+  assert (HRi : Rst (Rio (Rinv vals)) (mkWs regs0 (mkIo [] [] (gc0 vals))) (mkWs regs0 (mkIo [] [] (gc0 vals)))).
+  { split; cbn; [reflexivity|]. repeat split. cbn. apply repeat_length. }
+  destruct (gc_walk_inv vals T _ _ _ HRi E2) as (s3 & _ & (_ & _ & _ & (_ & _ & Hl))).
+  rewrite Hc. exact Hl.
+Qed.
+
+(* the values a reader of the compressed data obtains are the values a reader
+   of the uncompressed data obtains; same descriptors and links *)
+Theorem ghosts_agree T vals outs w g outs' w' g' :
+  encode_compressed_ghost_strict T vals = Ok (outs, w, g) ->
+  encode_ghost T vals = Ok (outs', w', g') ->
+  outs' = outs /\ g' = g.
+Proof.
+  unfold encode_compressed_ghost_strict, encode_ghost, run_compressed, run_template. intros Ec Eu.
+  fold (gc0 vals) in Ec.
+  destruct (walk_list (io_handlers gcs_prims) io_add_link T _) as [sc|] eqn:E1; cbn [bind] in Ec; [|discriminate].
+  injection Ec as <- <- <-.
+  destruct (run_subsets g_prims T g_switch 0 (length vals) _ []) as [[o gs]|] eqn:E2; cbn [bind] in Eu; [|discriminate].
+  injection Eu as <- <- <-.
+  pose proof (strict_walk_length _ _ _ E1) as Hlen.
+  destruct (subsets_agree T vals sc E1 Hlen (length vals) 0
+              (mkGE (mkE [] vals 0 0) (repeat [] (length vals))) [] _ _ eq_refl eq_refl eq_refl E2) as (Ho & Hg).
+  split; [exact Ho|exact Hg].
+Qed.
+
+(* C05: compression is transparent.  For value lists accepted by both ghost
+   encoders, the real encoders produce the two bit strings, and decoding either
+   (followed by any further bits) yields the same descriptors, the same links and
+   the same values. *)
+Theorem compression_transparent T vals outs w g outs' w' g' t t' :
+  encode_compressed_ghost_strict T vals = Ok (outs, w, g) ->
+  encode_ghost T vals = Ok (outs', w', g') ->
+  encode_compressed T vals = Ok (outs, w) /\
+  encode_uncompressed T vals = Ok (outs, w') /\
+  decode_compressed T (length vals) (w ++ t) = Ok (outs, g, t) /\
+  decode_uncompressed T (length vals) (w' ++ t') = Ok (outs, g, t').
+Proof.
+  intros Ec Eu. destruct (ghosts_agree _ _ _ _ _ _ _ _ Ec Eu) as (-> & ->).
+  pose proof (strict_ghost_is_ghost _ _ _ Ec) as Ec'.
+  split; [exact (encode_compressed_ghost_is_encode _ _ _ _ _ Ec')|].
+  split; [exact (encode_ghost_is_encode _ _ _ _ _ Eu)|].
+  split; [exact (decode_encode_compressed _ _ _ _ _ t Ec')|].
+  exact (decode_encode _ _ _ _ _ t' Eu).
+Qed.
